@@ -14,6 +14,10 @@ CFG = dict(
     stages=[
         seq("asan", "asan", SRC, 20000, 2000000, params={0: 4}, leak=False),
         seq("rel", "rel", SRC, 8000, 1000000, params={0: 8}, leak=False),
+        # reentrancy: 2..8 threads run PRNG-derived workloads on this module at once; each thread's digest of everything it
+        # observed must equal the digest of the same workload run alone (harness/mt_pure.c); p0 = rounds per thread
+        seq("mt_tsan", "tsan", "mt_pure.c", 32, 3200, mode="json", params={0: 150}, wrap=True, leak=False),
+        seq("mt_rel", "rel", "mt_pure.c", 32, 3200, mode="json", params={0: 1500}, leak=False),
     ],
     rule=("case = one JSON value tree. Case indices 0-9 are seed-independent sweeps: all integers 2^k-1, 2^k, 2^k+1 (k=0..63, "
           "both signs) as decimal text and through aws_json_value_new_number; 51 special doubles (+-0, +-DBL_MAX and its "
